@@ -16,8 +16,10 @@ package main
 //     page in which no option value appears with an HTML metacharacter unescaped.
 
 import (
+	"encoding/base64"
 	"regexp"
 	"strings"
+	"unicode/utf8"
 )
 
 // KV is one functional option application (name of the option constructor, argument).
@@ -38,6 +40,7 @@ type Config struct {
 	SpecBase  string `json:"spec_base,omitempty"`  // basePath argument of Spec
 	SpecOpts  []KV   `json:"spec_opts,omitempty"`  // WithSpecPath / WithSpecDocument, in order
 	SpecBytes string `json:"spec_bytes,omitempty"` // the document handed to Spec
+	SpecNil   bool   `json:"spec_nil,omitempty"`   // hand Spec a nil slice instead of an empty one
 
 	// api kinds
 	APIBase   string `json:"api_base,omitempty"` // basePath member of the description
@@ -57,6 +60,51 @@ type Case struct {
 	Method string `json:"method"`
 	Target string `json:"target"` // request target exactly as on the request line
 	Body   string `json:"body,omitempty"`
+}
+
+// Values that are not valid UTF-8 cannot travel through the JSON of a replay file: they are carried
+// as "\x00b64:" + base64 and decoded by the harness and the model alike (lit / unlit).
+const b64Prefix = "\x00b64:"
+
+func lit(s string) string {
+	if utf8.ValidString(s) && !strings.HasPrefix(s, b64Prefix) {
+		return s
+	}
+	return b64Prefix + base64.StdEncoding.EncodeToString([]byte(s))
+}
+
+func unlit(s string) string {
+	if !strings.HasPrefix(s, b64Prefix) {
+		return s
+	}
+	b, err := base64.StdEncoding.DecodeString(s[len(b64Prefix):])
+	if err != nil {
+		panic("harness: bad b64 value in configuration")
+	}
+	return string(b)
+}
+
+// decoded returns the configuration with every carried value in its real form.
+func (c Config) decoded() Config {
+	d := c
+	if c.Opts != nil {
+		d.Opts = make(map[string]string, len(c.Opts))
+		for k, v := range c.Opts {
+			d.Opts[k] = unlit(v)
+		}
+	}
+	un := func(kvs []KV) []KV {
+		if kvs == nil {
+			return nil
+		}
+		out := make([]KV, len(kvs))
+		for i, kv := range kvs {
+			out[i] = KV{kv.K, unlit(kv.V)}
+		}
+		return out
+	}
+	d.SpecBase, d.SpecBytes, d.SpecOpts, d.UIOpts = unlit(c.SpecBase), unlit(c.SpecBytes), un(c.SpecOpts), un(c.UIOpts)
+	return d
 }
 
 func (c Config) api() bool { return strings.HasPrefix(c.Kind, "api-") }
@@ -223,7 +271,7 @@ func specURLKind(u string) (kind, encPath string) {
 
 // plainURL: the characters every escaper leaves readable (used to decide when
 // the page must contain the URL literally, modulo HTML / JS string escaping).
-var plainURL = regexp.MustCompile(`^[A-Za-z0-9/:._?=#%~-]+$`)
+var plainURL = regexp.MustCompile(`^[A-Za-z0-9/:._?=#%~\[\]-]+$`)
 
 // rfcPath: a path made of characters RFC 3986 allows in a path.
 var rfcPath = regexp.MustCompile(`^[A-Za-z0-9/._~!$&'()*+,;=:@%-]*$`)
@@ -312,7 +360,34 @@ func templateInfo(tpl string) (token string, bad bool) {
 	}
 }
 
+var validEscape = regexp.MustCompile(`%[0-9A-Fa-f]{2}`)
+
+// pathLocs: the location(s) of a document whose path is spelled by path OPTIONS (not by a URL).
+// A '%' in such an option is a literal character of the path; only when it happens to form a valid
+// escape (%20, %2f) the text leaves open whether the literal or the decoded path is meant: then both
+// are MAY locations.
+func pathLocs(ls []loc, what, full string, must bool) []loc {
+	if validEscape.MatchString(full) {
+		ls = addLoc(ls, loc{what, norm(full), false})
+		if dec, ok := pctDecode(full); ok {
+			ls = addLoc(ls, loc{what, norm(dec), false})
+		}
+		return ls
+	}
+	return addLoc(ls, loc{what, norm(full), must})
+}
+
+// escapesOK: every '%' of the string starts a valid %XX escape.
+func escapesOK(s string) bool {
+	return strings.Count(s, "%") == len(validEscape.FindAllString(s, -1))
+}
+
+// showable: a text HTML can carry as it is. NUL cannot appear in an HTML document (escapers replace it
+// by U+FFFD) and invalid UTF-8 has no defined rendition, so for such values only the escaping rule is checked.
+func showable(s string) bool { return utf8.ValidString(s) && !strings.Contains(s, "\x00") }
+
 func buildModel(c Config) model {
+	c = c.decoded()
 	var m model
 	m.Page = c.pageKind()
 	switch {
@@ -333,7 +408,7 @@ func buildModel(c Config) model {
 		}
 		full := base + "/" + sp + "/" + doc
 		must := strings.HasPrefix(base, "/") && !hasDotSegment(full)
-		m.Locs = addLoc(m.Locs, loc{"spec", norm(full), must})
+		m.Locs = pathLocs(m.Locs, "spec", full, must)
 		m.SpecBytes = []byte(c.SpecBytes)
 
 	case !c.api():
@@ -361,10 +436,10 @@ func buildModel(c Config) model {
 					m.Locs = addLoc(m.Locs, loc{"page", norm(cb), false})
 				}
 			} else {
-				m.Locs = addLoc(m.Locs, loc{"page", norm(full + "/" + defCallback), wellFormed})
+				m.Locs = pathLocs(m.Locs, "page", full+"/"+defCallback, wellFormed)
 			}
 		} else {
-			m.Locs = addLoc(m.Locs, loc{"page", norm(full), wellFormed})
+			m.Locs = pathLocs(m.Locs, "page", full, wellFormed)
 		}
 		m.Title = o["Title"]
 		if m.Title == "" {
@@ -375,10 +450,10 @@ func buildModel(c Config) model {
 			m.SpecURL = defSpecURL
 		}
 		m.CustomToken, m.BadTemplate = templateInfo(o["Template"])
-		m.CheckTitle = !m.BadTemplate
+		m.CheckTitle = !m.BadTemplate && showable(m.Title)
 		// the callback page has no spec reference; the other default pages and the
 		// custom template of this check render the spec URL
-		m.CheckSpecURL = !m.BadTemplate && plainURL.MatchString(m.SpecURL) && (c.Kind != "oauth2cb" || m.CustomToken != "")
+		m.CheckSpecURL = !m.BadTemplate && plainURL.MatchString(m.SpecURL) && escapesOK(m.SpecURL) && (c.Kind != "oauth2cb" || m.CustomToken != "")
 		vals := make([]string, 0, len(o))
 		for k, v := range o {
 			if k != "Template" {
@@ -405,7 +480,7 @@ func buildModel(c Config) model {
 		}
 		full := base + "/" + pth
 		uiPath := norm(full)
-		m.Locs = addLoc(m.Locs, loc{"page", uiPath, strings.HasPrefix(base, "/") && !hasDotSegment(full)})
+		m.Locs = pathLocs(m.Locs, "page", full, strings.HasPrefix(base, "/") && !hasDotSegment(full))
 
 		su, given := lastOpt(c.UIOpts, "WithUISpecURL")
 		if su == "" {
@@ -416,7 +491,7 @@ func buildModel(c Config) model {
 		dec, ok := pctDecode(enc)
 		namesDoc := enc != "" && !strings.HasSuffix(enc, "/")
 		switch {
-		case kind == "absolute" && ok && namesDoc && rfcPath.MatchString(enc):
+		case kind == "absolute" && ok && escapesOK(su) && namesDoc && rfcPath.MatchString(enc):
 			// "the page served references the very location at which the spec document is served"
 			m.Locs = addLoc(m.Locs, loc{"spec", norm(dec), true})
 			m.SpecMustRef = given
@@ -448,10 +523,10 @@ func buildModel(c Config) model {
 		}
 		tpl, _ := lastOpt(c.UIOpts, "WithTemplate")
 		m.CustomToken, m.BadTemplate = templateInfo(tpl)
-		if m.BadTemplate {
+		if m.BadTemplate || !showable(m.Title) {
 			m.CheckTitle = false
 		}
-		m.CheckSpecURL = !m.BadTemplate && plainURL.MatchString(su)
+		m.CheckSpecURL = !m.BadTemplate && plainURL.MatchString(su) && escapesOK(su)
 		vals := []string{c.APITitle, apiBase}
 		for _, kv := range c.UIOpts {
 			if kv.K != "WithTemplate" {
